@@ -1,6 +1,7 @@
 import SvgVerif.Model.Proto
 import SvgVerif.Model.Poly
 import SvgVerif.Model.PathParam
+import SvgVerif.Model.PathOps
 /-! Correspondence driver: one operation per input line, one canonical result per
 output line.  Run as `lake env lean --run Driver.lean < ops.txt`.  The Python
 harness feeds the same operations to the real svgpathtools code and diffs. -/
@@ -74,6 +75,22 @@ def handle (cmd : String) (args : List String) : String :=
       let closed := match PathParam.isClosed segs with | none => "assert" | some b => toString b
       s!"{cont} {closed} " ++ " ".intercalate (sp.map (fun p => toString p.length))
     | none => "bad-args"
+  -- C09 -------------------------------------------------------------------
+  | "cropped" | "cropped_buggy" =>
+    match splitBar args with
+    | [c :: ls, labs, [T0, T1]] =>
+      match parseRats? ls, labs.mapM (·.toNat?), parseRat? T0, parseRat? T1 with
+      | some ls, some labs, some T0, some T1 =>
+        let fr := (PathParam.calcLengths ls).2
+        let f := if cmd == "cropped" then PathOps.cropped atol rtol fr labs (some (c == "1")) T0 T1
+                 else PathOps.croppedBuggy atol rtol fr labs (some (c == "1")) T0 T1
+        match f with
+        | .ok ps => ("ok " ++ " ".intercalate (ps.map fun p => s!"{p.idx}:{showRat p.a}:{showRat p.b}")).trimAsciiEnd.toString
+        | .error .assertion => "assert"
+        | .error .notClosed => "valueerror"
+        | .error .bug => "bug"
+      | _, _, _, _ => "bad-args"
+    | _ => "bad-args"
   | _ => "bad-op"
 
 partial def loop (h : IO.FS.Stream) (out : IO.FS.Stream) : IO Unit := do
